@@ -529,7 +529,7 @@ func init() {
 		}
 		st = c.R.StartStage("selectors", "generated rules `SELECTOR-LIST{c:d}`: 1-3 complex selectors, all combinators and white-space variants, type/namespace/class/id, attribute selectors (6 matchers x quote forms x value shapes incl. escapes x flags), pseudo-classes with selector / An+B / keyword / custom-identifier arguments, nesting <= 2; non-trivial = output differs from input")
 		cases = nil
-		for i := 0; i < c.N(6000, 90000)*mult; i++ {
+		for i := 0; i < c.N(16000, 160000)*mult; i++ {
 			r := c.Rng.Fork()
 			cases = append(cases, c04bCase{src: c04bSelList(r, 0) + c04bWs(r) + "{c:d}", tag: "selector"})
 		}
@@ -540,7 +540,7 @@ func init() {
 
 		st = c.R.StartStage("shorthand", "generated `font` and `background` declarations (grammar-derived values: optional components in any order, 1-3 layers, position/size/repeat/box/colour forms; off-grammar values), in a rule and inline, KeepCSS2 off/on, `!important` spellings; non-trivial = output differs from input")
 		cases = nil
-		for i := 0; i < c.N(8000, 120000)*mult; i++ {
+		for i := 0; i < c.N(20000, 200000)*mult; i++ {
 			r := c.Rng.Fork()
 			var d string
 			if r.Bool() {
@@ -562,7 +562,7 @@ func init() {
 
 		st = c.R.StartStage("sheets", "generated style sheets: 1-4 items per level, nesting <= 3: rules, @media (media query grammar) / @supports / @import (every url form) / @charset / @namespace / @layer / @font-face / @keyframes / @page / @container / unknown at-rules, comments (plain, bang, source map) everywhere, CDO/CDC, custom properties, IE hacks, parse-error fragments, declarations of all C04 shapes + font/background; 15% inline declaration lists; KeepCSS2 random; non-trivial = output differs from input")
 		cases = nil
-		for i := 0; i < c.N(6000, 90000)*mult; i++ {
+		for i := 0; i < c.N(14000, 140000)*mult; i++ {
 			r := c.Rng.Fork()
 			if r.Chance(15) {
 				cases = append(cases, c04bCase{src: c04bDeclList(r, shapes, 1), inline: true, css2: r.Chance(30), tag: "inline"})
